@@ -21,10 +21,19 @@ def obligations(prop, tier):
     if prop == "SMOKE":
         L.append(ob("smoke/ws/3", "internal/jsonwire", "VerifSmokeWS", [3]))
     if prop == "C01":
-        for n in ([1, 2] if q else [1, 2, 3]):
+        for fn, tag in (("VerifC01IsValid", "isvalid"), ("VerifC01Tokens", "tokens"), ("VerifC01Values", "values")):
             for u in (False, True):
                 for d in (False, True):
-                    L.append(ob("isvalid/n=%d/utf8=%d/dup=%d" % (n, u, d), "jsontext", "VerifC01IsValid", [n, u, d], covers=["reject"]))
+                    for n in ([1, 2, 3] if q else [1, 2, 3, 4]):
+                        L.append(ob("%s/full/n=%d/utf8=%d/dup=%d" % (tag, n, u, d), "jsontext", fn, [n, 0, u, d]))
+                    for n in ([4] if q else [5, 6]):
+                        L.append(ob("%s/sigma24/n=%d/utf8=%d/dup=%d" % (tag, n, u, d), "jsontext", fn, [n, 1, u, d]))
+    if prop == "C10":
+        for n in ([1, 2, 5, 19, 20, 21] if q else list(range(1, 23))):
+            L.append(ob("parseuint/n=%d" % n, "internal/jsonwire", "VerifC10ParseUint", [n], timeout_ms=60000))
+    if prop == "C19":
+        L.append(ob("flags/algebra", "internal/jsonflags", "VerifC19Flags", [], second="cvc5", covers=["end"]))
+        L.append(ob("flags/v1v2", "internal/jsonflags", "VerifC19V1V2", [], second="cvc5", covers=["end"]))
     return L
 
 
